@@ -86,6 +86,7 @@ Definition bench_ok (prob : nat) (f0 fb : f64) : bool :=
   | 1%nat => fle fb (fmul f0 (of_bits 0x3FB999999999999A))   (* 0.1 *)
   | 2%nat => fle fb (fmul f0 (of_bits 0x3F847AE147AE147B))   (* 0.01 *)
   | 7%nat => fle fb (fmul f0 (of_bits 0x3FA999999999999A))   (* tiny length scale (1e-12): 0.05 *)
+  | 9%nat => fle fb (fmul f0 (of_bits 0x3F1A36E2EB1C432D))   (* optimum 1e5 step scales away: 1e-4 (worst of 40 on the unchanged tree: 3e-13) *)
   | _ => feq fb fzero
   end.
 
